@@ -27,18 +27,22 @@ static void set_tape(int kind, uint64_t seed) {
 }
 static const char *tape_name(int k) { static const char *n[] = {"zeros", "ones", "repeat1", "alt2", "lowweight", "random"}; return n[k < 0 || k > 5 ? 5 : k]; }
 
+// Masked words, states and preserve arrays live in exact-size storage (xalloc):
+// ASan red zones in sanitizer builds, guard pages with VERIF_GUARD (which is
+// what sees the x86-64 assembly).  Out-of-bounds writes are C12's business:
+// here they only show up as crashes of the case.
 struct Word {
-    std::vector<uint64_t> mem;   // 8-byte aligned storage + guard
-    Word() : mem(adp_word_size() / 8 + 2, 0xC3C3C3C3C3C3C3C3ULL) {}
-    void *p() { return mem.data() + 1; }
-    const void *p() const { return mem.data() + 1; }
-    bool intact() const { return mem.front() == 0xC3C3C3C3C3C3C3C3ULL && mem.back() == 0xC3C3C3C3C3C3C3C3ULL; }
+    void *mem; size_t n;
+    Word() : mem(xalloc(adp_word_size())), n(adp_word_size()) { memset(mem, 0, n); }
+    ~Word() { xfree(mem, n); }
+    void *p() { return mem; }
+    const void *p() const { return mem; }
 };
 struct MState {
-    std::vector<uint64_t> mem;
-    MState() : mem(adp_state_size() / 8 + 2, 0xC3C3C3C3C3C3C3C3ULL) { adp_s_init(p()); }
-    void *p() { return mem.data() + 1; }
-    bool intact() const { return mem.front() == 0xC3C3C3C3C3C3C3C3ULL && mem.back() == 0xC3C3C3C3C3C3C3C3ULL; }
+    void *mem; size_t n;
+    MState() : mem(xalloc(adp_state_size())), n(adp_state_size()) { adp_s_init(mem); }
+    ~MState() { xfree(mem, n); }
+    void *p() { return mem; }
 };
 
 static int shares_for(uint64_t pick) { int mx = adp_max_shares(); return 2 + (int)(pick % (uint64_t)(mx - 1)); }
@@ -131,9 +135,10 @@ static std::string check_perm(const KV &c) {
     Bytes st = tobytes(c, "state"), pr = tobytes(c, "preserve");
     int fr1 = (int)tonum(c, "fr1"), fr2 = (int)tonum(c, "fr2"), tk = (int)tonum(c, "tape");
     set_tape(tk, tonum(c, "tapeseed"));
-    uint64_t preserve[5] = {0, 0, 0, 0xC3C3C3C3C3C3C3C3ULL, 0xC3C3C3C3C3C3C3C3ULL};
-    for (int i = 0; i < 3; ++i) memcpy(&preserve[i], pr.data() + 8 * i, 8);
-    for (int i = n - 1; i < 5; ++i) preserve[i] = 0xC3C3C3C3C3C3C3C3ULL;   // only n-1 words belong to the routine
+    // only n-1 preserve words belong to the routine: exact-size storage
+    struct Pres { uint64_t *p; size_t n; Pres(size_t k) : p((uint64_t *)xalloc(k * 8)), n(k * 8) {} ~Pres() { xfree(p, n); } } pres((size_t)(n - 1));
+    uint64_t *preserve = pres.p;
+    for (int i = 0; i < n - 1; ++i) memcpy(&preserve[i], pr.data() + 8 * i, 8);
     MState s, s2;
     uint8_t out[40];
     ref::State r;
@@ -147,7 +152,6 @@ static std::string check_perm(const KV &c) {
         if (mode == 1) { adp_s_permute(n, s.p(), (uint8_t)fr2, preserve); ref::permute(r, fr2); }
         adp_s_to_x1(n, out, s.p());
         if (memcmp(out, r.b, 40) != 0) return at + "masked permutation (first_round " + num(fr1) + (mode == 1 ? "," + num(fr2) : "") + ") differs from the reference permutation";
-        for (int i = n - 1; i < 5; ++i) if (preserve[i] != 0xC3C3C3C3C3C3C3C3ULL) return at + "permute wrote preserve[" + num(i) + "] (only " + num(n - 1) + " words belong to it)";
     } else if (mode == 2) {
         uint64_t before[5][4];
         for (int wv = 0; wv < 5; ++wv) for (int i = 0; i < n; ++i) before[wv][i] = adp_share(adp_s_word(s.p(), wv), i);
